@@ -28,6 +28,7 @@ type Facts struct {
 	fieldAddrAll map[*types.Var][]*ssa.FieldAddr
 
 	script *scriptFacts
+	wt     *wtFacts
 }
 
 func (p *Prog) f() *Facts {
